@@ -483,6 +483,44 @@ def r6(ctx, regions):
     ctx.floor(rule, n, "C19.R6.functions")
 
 
+def r7(ctx, regions):
+    rule = "C19.R7"
+    ctx.rule(rule, "control neutrality in the MIR of the feature build (what the syntax rule C19.R2 cannot see inside macro arguments "
+                   "such as `format!(\"{}\", &s[..64])`): in crate asn1rs no call of Index::index / IndexMut::index_mut, unwrap / expect, "
+                   "and no bounds-check or arithmetic-overflow assertion, lies in a body that exists only with the feature or has its "
+                   "span in a gated statement - gated code that can panic makes the feature build fail where the default build decodes")
+    PA, PB = ctx.program("A"), ctx.program("B")
+    n = 0
+    for b in PB.lib_bodies("asn1rs"):
+        if not (b.file.endswith("rw/uper.rs") or b.file.endswith("per/err.rs")) or b.derived or "::promoted[" in b.path:
+            continue
+        gated_body = b.key not in PA.bodies
+        exempt = EXEMPT_FNS.get((b.file, b.name)) or EXEMPT_FNS.get((b.file, (b.root or "").split("::")[-1]))
+        if exempt:
+            continue
+        sites = []
+        for cs in b.calls():
+            tr = (cs.trait or "").split("::")[-1]
+            if (cs.name in ("index", "index_mut") and tr in ("Index", "IndexMut")) or \
+                    (cs.name in ("unwrap", "expect", "unwrap_err", "expect_err") and cs.fn and ("Option" in (cs.fn.get("self_ty") or cs.callee or "")
+                                                                                                  or "Result" in (cs.fn.get("self_ty") or cs.callee or ""))):
+                sites.append((cs.term.get("sp"), "%s" % X.short(cs.callee or cs.name), cs.loc()))
+        for bb, t in b.asserts():
+            if t["msg"].get("k") in ("BoundsCheck", "Overflow", "DivisionByZero", "RemainderByZero"):
+                sites.append((t.get("sp"), "assert %s" % t["msg"].get("k"), span_loc(t["sp"])))
+        for sp, what, loc in sites:
+            us = user_span(sp)
+            reg = regions.containing(us) if us else None
+            in_gated = gated_body or (reg is not None and reg["kind"] not in ITEM_KINDS) or \
+                (reg is not None and reg["kind"] in ITEM_KINDS and not gated_body)
+            if not in_gated:
+                continue
+            n += 1
+            ctx.fail(rule, "%s#%s" % (b.path, what), "gated code can panic: %s at %s lies in code that exists only with the feature" % (what, loc),
+                     loc, {"function": b.path, "feature_only_body": gated_body})
+    ctx.ok(rule, "census", {"panic_capable_sites_in_gated_code": n}, nontrivial=False)
+
+
 def run(ctx):
     regions = Regions(ctx.src())
     ctx.analysed["gated_regions"] = len(regions.all)
@@ -495,3 +533,4 @@ def run(ctx):
     r3_r4(ctx, regions)
     r5(ctx, regions)
     r6(ctx, regions)
+    r7(ctx, regions)
